@@ -1,7 +1,7 @@
 """C10 — projections map the view volume onto the clip cube and reject bad parameters."""
 import algebra as A
 from algebra import El, ZERO, ONE
-from core import (Harness, sv, sm, sq, ss, Run, Conv, run_specs, report_dropped, ret_leaves, cmp_struct, single_ret, parse_guard, flat)
+from core import (path_hyps, Harness, sv, sm, sq, ss, Run, Conv, run_specs, report_dropped, ret_leaves, cmp_struct, single_ret, parse_guard, flat)
 import facts
 import specs
 from specs import TWO_PI, DEG2RAD, HALF
@@ -160,8 +160,10 @@ def check_proj(run, S, name, spec, kw):
                             hit = True
             run.ob(lkey + ':reject:focal point between the planes', hit, rule='K5 guard pass-set', expected='focal point < min(near, far) or > max(near, far) on every path to a matrix',
                    found=[c[4] for c in cons][-3:], where=where)
-        extra = [cons[i][4] for i in range(len(cons)) if i not in used]
-        run.ob(lkey + ':no-extra-rejection', not extra, rule='K5 guard pass-set', expected='no precondition beyond the documented ones', found=extra, where=where)
+        # (guards that match no documented precondition are special-case splits - a fast path - as long as they reject
+        # nothing: that is decided on the panic leaves below, `panic-justified`)
+        hyp_ctx = path_hyps(S, guards)
+        hyp_ctx.__enter__()
         M = cv.val(leaf['v'])
         if table is not None:
             cmp_struct(run, S, name, M, table, 'K3 field conformance with the %s entry table' % {'ortho': 'glOrtho', 'frustum': 'glFrustum', 'perspective': 'glFrustum(symmetric window of half-height n tan(fovy/2))'}[which], where=where, tag='ret%d' % li)
@@ -189,11 +191,12 @@ def check_proj(run, S, name, spec, kw):
             wc = lambda z: M[2][3] * z + M[3][3]
             ok2 = A.eq(zc(-n), -wc(-n)) and A.eq(zc(-f), wc(-f))
             run.ob(lkey + ':depth', ok2, rule='K4', expected='z = -near -> -1 and z = -far -> +1 after division by w', found='holds' if ok2 else 'fails', where=where)
-            ok3 = A.eq(M[3][3], ONE) and A.eq(M[2][3] * (hh / (T * 2)) + ONE, ZERO)
+            ok3 = A.eq(M[3][3], ONE) and A.eq(M[2][3] * hh + T * 2, ZERO)      # (multiplied out: also meaningful for tan(fovy/2) = 0)
             run.ob(lkey + ':focal', ok3, rule='K4', expected='w = 1 at z = 0 and w = 0 at distance (h/2) cot(fovy/2) behind the origin', found=[A.show(M[2][3].norm()), A.show(M[3][3].norm())], where=where)
             zero = [M[0][1], M[0][2], M[0][3], M[1][0], M[1][2], M[1][3], M[2][0], M[2][1], M[3][0], M[3][1]]
             ok4 = all(A.eq(x, ZERO) for x in zero)
             run.ob(lkey + ':sparsity', ok4, rule='K4', expected='all other entries zero', found='holds' if ok4 else 'fails', where=where)
+        hyp_ctx.__exit__(None, None, None)
     # coverage: every combination of valid relations must reach a matrix on some path (finite enumeration)
     import itertools
     wants = [(label, sorted(ALL - frozenset(forb) - frozenset(['un']))) for label, x, y, forb in single]
@@ -207,6 +210,23 @@ def check_proj(run, S, name, spec, kw):
         run.ob(key + ':valid-admitted', not missing, rule='K12 finite enumeration of relation combinations', expected='each of the %d combinations of valid relations reaches a matrix' % ncombo,
                found='rejected: %s' % missing[:3] if missing else 'all admitted', where=where)
         run.notes['relation_combinations_enumerated'] = run.notes.get('relation_combinations_enumerated', 0) + ncombo
+    # every panic is justified by a documented precondition violated on its path (no rejection beyond the documented ones)
+    for pi, (guards, leaf) in enumerate([(g_, l) for g_, l in ls if l['k'] == 'panic']):
+        cons = [c for c in (constraint(S, cv, g_) for g_ in guards) if c is not None]
+        just = False
+        for label, x, y, forb in single:
+            for c in cons:
+                m = match(c, x, y)
+                if m is not None and (m & (frozenset(forb) | frozenset(['un']))):
+                    just = True         # ('un': a NaN operand never satisfies the required relation)
+        for alts in either:
+            for c in cons:
+                for x, y, al in alts:
+                    m = match(c, x, y)
+                    if m is not None and not (m <= al):
+                        just = True
+        run.ob('%s:panic%d:justified' % (key, pi), just, rule='K5 guard pass-set', expected='a rejection only where a documented precondition fails on the path (no precondition beyond the documented ones)',
+               found=[c[4] for c in cons][-4:], where=where)
     # every other leaf panics
     others = sorted({l['k'] for g_, l in ls if l['k'] != 'ret'})
     if which != 'ortho':
